@@ -16,6 +16,7 @@ pub const OWN: &[&str] = &[
     "fake_evaluation_differs",
     "fake_field_repeats",
     "fake_masking_key_predictable",
+    "fake_keypair_not_fresh",
     "client_errkind",
     "client_accept_unexpected",
     "server_accept_unexpected",
@@ -27,6 +28,11 @@ pub fn gen_world(seed: u64, idx: u64, s: &dyn SuiteOps) -> World {
     let mut b = WB::new(s, seed, idx, "c08 fake and real attempts interleaved");
     let fam = s.ksf_family();
     let setup = b.setup(g.chance(1, 3));
+    // a second server created with the SAME static key on its own tape: the stand-in
+    // key pair used for unregistered users must not be a function of the static key
+    let setup_twin = b.id();
+    let t = b.tape("setup-with-key");
+    b.push(Op::NewSetupWithKey { out: setup_twin, tape: t, sk_from: setup });
     let pw = small_pw(&mut g);
     let cred_a = small_cred(&mut g);
     let mut cred_x = small_cred(&mut g);
@@ -128,6 +134,27 @@ pub fn judge(w: &World, r: &RunResult) -> Vec<Violation> {
         for d in &e.draws {
             if d.0.len() == lens.nh {
                 candidates.push(d.0.clone());
+            }
+        }
+    }
+    // the fake key pair is per-setup randomness, not derivable from the static key
+    let mut fakes: Vec<(usize, Vec<u8>, Vec<u8>)> = vec![];
+    for (i, (op, e)) in w.ops.iter().zip(r.events.iter()).enumerate() {
+        if let (Op::NewSetup { .. } | Op::NewSetupWithKey { .. }, Ok(outs)) = (op, &e.res) {
+            if let Some((_, st)) = outs.iter().find(|(n, _)| *n == "setup") {
+                if st.0.len() == lens.nh + 2 * lens.nsk {
+                    fakes.push((i, st.0[lens.nh..lens.nh + lens.nsk].to_vec(), st.0[lens.nh + lens.nsk..].to_vec()));
+                }
+            }
+        }
+    }
+    for a in 0..fakes.len() {
+        if !w.knobs.hsm_handle && fakes[a].1 == fakes[a].2 {
+            v.push(Violation { clause: "fake_keypair_not_fresh", op: fakes[a].0, detail: "the setup's fake key pair equals its static key pair".into() });
+        }
+        for b2 in a + 1..fakes.len() {
+            if fakes[a].2 == fakes[b2].2 {
+                v.push(Violation { clause: "fake_keypair_not_fresh", op: fakes[b2].0, detail: format!("two setups created on independent tapes (ops {} and {}) hold the same fake key pair {}: it is derived from the static key, not drawn", fakes[a].0, fakes[b2].0, hex::encode(&fakes[a].2)) });
             }
         }
     }
